@@ -29,12 +29,16 @@ fn kind(k: &str) -> (String, Vec<u16>, bool) {
         "cors" => (format!("GET /hello HTTP/1.1\r\n{h}origin: http://evil.test\r\n"), vec![403], false),
         "nocontent" => (format!("GET /nocontent HTTP/1.1\r\n{h}"), vec![204], false),
         "big" => (format!("GET /big HTTP/1.1\r\n{h}accept-encoding: gzip\r\n"), vec![200], false),
-        // a POST whose 36-byte body looks like a request and arrives after the head; the handler never reads it
-        "postlate" => (format!("POST /hello HTTP/1.1\r\n{h}content-length: 36\r\n"), vec![200], false),
+        // a POST whose 35-byte body looks like a request and arrives after the head; the handler never reads it
+        "postlate" => (format!("POST /hello HTTP/1.1\r\n{h}content-length: 35\r\n"), vec![200], false),
+        // the handler reads only the first 10 bytes of a 45-byte body; the other 35 look like a request
+        "postpartial" => (format!("POST /read10 HTTP/1.1\r\n{h}content-length: 45\r\n"), vec![200], false),
+        // a body far larger than what the handler reads (10 bytes of 300 000): the client is still writing when the response is ready
+        "posthuge" => (format!("POST /read10 HTTP/1.1\r\n{h}content-length: 300000\r\n"), vec![200], false),
         _ => unreachable!("{k}"),
     }
 }
-const KINDS: [&str; 23] = ["postlate", "get", "head", "getgz", "headgz", "getbr", "uncached", "empty", "missing", "headmissing", "range", "headrange", "range416", "ims", "unsafe", "headunsafe", "notacceptable", "png406", "post", "options", "cors", "nocontent", "big"];
+const KINDS: [&str; 25] = ["postpartial", "posthuge", "postlate", "get", "head", "getgz", "headgz", "getbr", "uncached", "empty", "missing", "headmissing", "range", "headrange", "range416", "ims", "unsafe", "headunsafe", "notacceptable", "png406", "post", "options", "cors", "nocontent", "big"];
 
 fn build(limited: bool) -> std::sync::Arc<HostCollection> {
     let mut ext = Extensions::new();
@@ -59,6 +63,10 @@ fn build(limited: bool) -> std::sync::Arc<HostCollection> {
         let mut r = Response::new(Bytes::from_static(body));
         r.headers_mut().insert("content-type", HeaderValue::from_static("image/png"));
         FatResponse::cache(r)
+    }));
+    ext.add_prepare_single("/read10", prepare!(req, _h, _p, _a, {
+        let b = req.body_mut().read_to_bytes(10).await.unwrap_or_default();
+        FatResponse::no_cache(Response::new(Bytes::from(format!("read {} bytes of the body ......................................", b.len()))))
     }));
     ext.add_prepare_single("/big", prepare!(_r, _h, _p, _a, {
         let mut r = Response::new(Bytes::from(gen_bytes(70_000, 3)));
@@ -139,24 +147,34 @@ impl Group for Framing {
                 }
             };
             if sent.is_err() {
-                if i > 0 && kinds[i - 1] == "postlate" { break; } // the server closed after the unread body: fine
                 problems.push(format!("request {i} ({k}): send failed")); break;
             }
             if k == "postlate" {
                 std::thread::sleep(std::time::Duration::from_millis(40));
                 let _ = cl.send(b"GET /smuggled HTTP/1.1\r\nhost: x\r\n\r\n");
             }
+            if k == "postpartial" {
+                let _ = cl.send(b"0123456789GET /smuggled HTTP/1.1\r\nhost: x\r\n\r\n");
+            }
+            if k == "posthuge" {
+                // 300 000 bytes that read as requests if they are ever parsed
+                let unit = b"GET /smuggled HTTP/1.1\r\nhost: x\r\n\r\n";
+                let mut body = Vec::with_capacity(300_000);
+                while body.len() < 300_000 { body.extend_from_slice(unit); }
+                body.truncate(300_000);
+                let _ = cl.send(&body);
+            }
             let r = match cl.read_response(head) {
                 Ok(r) => r,
                 Err(ReadError::Eof) if limited => { break; } // dropped by the limiter beyond 3x: allowed to close
-                Err(ReadError::Eof) if i > 0 && kinds[i - 1] == "postlate" => { break; } // closed because a body was left unread
                 Err(e) => { problems.push(format!("request {i} ({k}): {e:?}")); break; }
             };
             heads.push(b01(head).to_owned());
             let cl_count = r.header_count("content-length");
             mine.push(format!("{}:{}:{cl_count}", r.status, r.body.len()));
             // after an unread late body the next response must be to OUR request, never to the smuggled one
-            if i > 0 && kinds[i - 1] == "postlate" && r.status == 404 && !expect.contains(&404) { problems.push(format!("request {i} ({k}): the unread request body was parsed as a request (404 for /smuggled)")); }
+            // what the handler left of a body is read and discarded by the server (up to 4 MiB): the connection stays in step
+            if i > 0 && ["postlate", "postpartial", "posthuge"].iter().any(|b| kinds[i - 1].split('/').next() == Some(*b)) && r.status == 404 && !expect.contains(&404) { problems.push(format!("request {i} ({k}): the unread request body was parsed as a request (404 for /smuggled)")); }
             let ok_status = expect.contains(&r.status) || (limited && r.status == 429);
             if !ok_status { problems.push(format!("request {i} ({k}): status {} not in {expect:?}", r.status)); }
             let cl_val: Option<usize> = r.header("content-length").and_then(|v| std::str::from_utf8(v).ok()).and_then(|s| s.parse().ok());
